@@ -346,3 +346,14 @@ func (s *Solver) SetTimeout(ms int) {
 		s.raw(fmt.Sprintf("(set-option :timeout %d)", ms))
 	}
 }
+
+// Recycle replaces the solver process by a fresh one (only between paths, at scope depth 0).
+func (s *Solver) Recycle() {
+	if s.depth != 0 {
+		return
+	}
+	s.Close()
+	if err := s.start(); err != nil {
+		panic(engineError{"solver recycle failed: " + err.Error()})
+	}
+}
